@@ -39,19 +39,22 @@ struct Case {
     policy: Policy,
     /// the ULA port the speaker is written through (an even port; the high byte may lie in contended RAM)
     port: u16,
+    /// a tape is inserted and playing during the whole schedule (its EAR *input* is not the speaker)
+    tape: bool,
     evs: Vec<Ev>,
 }
 
 impl Case {
     fn text(&self) -> String {
         format!(
-            "sched m128={} rate={} vol={} beeper={} ay={} port={:04x} policy={} evs={}",
+            "sched m128={} rate={} vol={} beeper={} ay={} port={:04x} tape={} policy={} evs={}",
             self.m128 as u8,
             self.rate,
             self.vol,
             self.beeper as u8,
             self.ay as u8,
             self.port,
+            self.tape as u8,
             match self.policy {
                 Policy::Always => "always",
                 Policy::Sometimes => "sometimes",
@@ -79,7 +82,7 @@ impl Case {
         if it.next()? != "sched" {
             return None;
         }
-        let mut c = Case { m128: false, rate: 44100, vol: 100, beeper: true, ay: false, policy: Policy::Always, port: 0x00FE, evs: vec![] };
+        let mut c = Case { m128: false, rate: 44100, vol: 100, beeper: true, ay: false, policy: Policy::Always, port: 0x00FE, tape: false, evs: vec![] };
         for kv in it {
             let (k, v) = kv.split_once('=')?;
             match k {
@@ -89,6 +92,7 @@ impl Case {
                 "beeper" => c.beeper = v == "1",
                 "ay" => c.ay = v == "1",
                 "port" => c.port = u16::from_str_radix(v, 16).ok()?,
+                "tape" => c.tape = v == "1",
                 "policy" => {
                     c.policy = match v {
                         "always" => Policy::Always,
@@ -234,6 +238,15 @@ fn check_case(model: &mut Model, c: &Case, mut rep: Option<&mut Report>) -> Opti
     let l = c.frame_len();
     let spf = c.rate / 50;
     let mut e = emu(&c.cfg());
+    if c.tape {
+        // a header-sized block: its pilot tone toggles the EAR input every 2168 T for the whole schedule
+        let mut blk = vec![0x00u8; 19];
+        blk[18] = blk.iter().fold(0, |a, b| a ^ b);
+        let mut tap = vec![19u8, 0];
+        tap.extend_from_slice(&blk);
+        let _ = e.load_tape(rustzx_core::host::Tape::Tap(VAsset::new(tap)));
+        e.play_tape();
+    }
     let a = model.ask(&format!("new {:x} {:x} {}", spf, l, c.beeper as u8));
     assert_eq!(a, "ok");
     let mut fc = 0usize; // mirror of frame_clocks
@@ -593,7 +606,7 @@ fn gen_case(r: &mut Rng, m128: bool, rate: usize, policy: Policy, frames: usize)
     }
     // a third of the schedules write the speaker through a port whose high byte lies in contended RAM
     let port = *r.pick(&[0x00FEu16, 0xBFFE, 0x7FFE]);
-    Case { m128, rate, vol, beeper, ay, policy, port, evs }
+    Case { m128, rate, vol, beeper, ay, policy, port, tape: r.chance(1, 4), evs }
 }
 
 fn shrink(model: &mut Model, c: &Case, key: &str) -> Case {
@@ -645,7 +658,7 @@ fn shrink(model: &mut Model, c: &Case, key: &str) -> Case {
     for (f, v) in [(0usize, 0u8), (1, 0), (2, 0)] {
         let mut a = cur.clone();
         match f {
-            0 => a.ay = false,
+            0 => { a.ay = false; a.tape = false; }
             1 => a.beeper = true,
             _ => a.vol = 100,
         }
@@ -956,7 +969,7 @@ distinct = (machine, rate, policy, volume class, beeper, ay, frames with writes)
         for rate in [8000usize, 44100, 48000] {
             for k in 0..=14usize {
                 let c = Case {
-                    m128, rate, vol: 100, beeper: true, ay: false, policy: Policy::Always, port: 0x00FE,
+                    m128, rate, vol: 100, beeper: true, ay: false, policy: Policy::Always, port: 0x00FE, tape: k % 5 == 4,
                     evs: vec![Ev::Wait(l + 2 - k), Ev::Out(0x10), Ev::Wait(l), Ev::Out(0x00), Ev::Wait(l + k), Ev::Out(0x18), Ev::Wait(2 * l)],
                 };
                 if let Some(d) = check_case(&mut model, &c, Some(&mut rep)) {
